@@ -7,7 +7,7 @@ from symx.engine import smax, smin
 ID = "C04"
 MODULES = ["hta.trace_analysis"]
 MUST_NOT_RAISE = True
-BUDGET_S = {"quick": 420, "thorough": 3000}
+BUDGET_S = {"quick": 420, "thorough": 1200}
 BOUNDS = {
     "quick": "1 rank x 1..3 device activities (all class multisets over computation/communication/memory/other (a sync event on a stream)), plus "
              "2 ranks x 1..2 activities; ts,dur symbolic Int in [0,2^40], dur >= 0 (zero length allowed)",
